@@ -4,6 +4,7 @@ import (
 	"time"
 
 	"github.com/karagenc/socket.io-go/internal/sync"
+	"github.com/karagenc/socket.io-go/internal/verifhook"
 
 	eio "github.com/karagenc/socket.io-go/engine.io"
 	eioparser "github.com/karagenc/socket.io-go/engine.io/parser"
@@ -34,6 +35,7 @@ func (pq *packetQueue) poll() (packets []*eioparser.Packet, ok, closed bool) {
 		ok = true
 		return
 	}
+	verifhook.Point("packetQueue.poll:before-wait")
 
 	select {
 	// _close takes precedence.
@@ -71,6 +73,7 @@ func (pq *packetQueue) add(packets ...*eioparser.Packet) {
 		pq.packets = append(pq.packets, packets...)
 	}
 	pq.mu.Unlock()
+	verifhook.Point("packetQueue.add:before-signal")
 
 	select {
 	case pq.ready <- struct{}{}:
